@@ -2,8 +2,8 @@
 # usage: seed_verify.sh <ID> <m>   confirm a seeded change in a scratch worktree, run our check against it, archive it
 # (1) patch applies at /repo HEAD, (2) builds and the unedited suite passes, (3) the demonstration fails with
 # the change and (4) passes without it, (5) our quick (and if missed, thorough) check reports it.
-ID=$1; M=$2
-SRC=/tmp/seed/$ID/out/$M
+ID=$1; M=$2; OUT=${3:-out}; NAME=${4:-$M}
+SRC=/tmp/seed/$ID/$OUT/$M
 export GOFLAGS=-mod=mod GOPROXY=off GOSUMDB=off GOTOOLCHAIN=local
 WT=/tmp/sv-$ID-$M
 git -C /repo worktree remove --force $WT 2>/dev/null
@@ -42,13 +42,13 @@ echo "$out" | grep -q "exit=2" && det="INFRA-ERROR"
 sig=$(echo "$out" | grep "^VIOLATION" | grep -o 'sig=[^ ]*' | head -3 | tr '\n' ' ')
 res "suite=$suite demo_with_change_fails=$withfail demo_without_passes=$without flags=[$flags] check=$det $sig"
 if [ "$withfail" = yes ] && [ "$without" = pass ]; then
-  d=/verif/seeded/$ID-$M
+  d=/verif/seeded/$ID-$NAME
   mkdir -p $d; cp $SRC/patch.diff $d/; cp $demo $d/demo_test.go; [ -f $SRC/README.md ] && cp $SRC/README.md $d/README.md
-  python3 - "$ID" "$M" "$det" "$sig" "$dir" "$flags" <<'PY'
+  python3 - "$ID" "$NAME" "$det" "$sig" "$dir" "$flags" "$SRC" <<'PY'
 import json,sys,subprocess
-ID,M,det,sig,dir,flags=sys.argv[1:7]
+ID,M,det,sig,dir,flags,SRC=sys.argv[1:8]
 head=subprocess.check_output(["git","-C","/repo","rev-parse","--short","HEAD"]).decode().strip()
-readme=open(f"/tmp/seed/{ID}/out/{M}/README.md").read() if True else ""
+readme=open(f"{SRC}/README.md").read()
 needs=""
 for line in readme.splitlines():
     l=line.lower()
